@@ -457,23 +457,15 @@ def oracle_M(case, run):
     # a callback that raises kills its worker (run() re-raises): the monitor's current worker is then dead,
     # start() does not replace it (less demanding reading), graceful() does
     cur = run.s.find_thread(run.mon.__dict__.get('thread')) if run.mon.__dict__.get('thread') is not None else None
+    ok = {want}
     if cur is not None and cur.tid in run.boomed:
-        want = 0
+        ok = {0, want}      # (the statement says nothing about a worker whose callback failed: dead or alive)
     if len(active) > 1:
         bad.append(('%d workers keep invoking the callback after the last call (%s) returned: %s'
                     % (len(active), last, active), 'M:two_active_workers'))
-    elif len(active) != want:
+    elif len(active) not in ok:
         bad.append(('%d active worker(s) after the last call (%s) returned, expected %d'
                     % (len(active), last, want), 'M:wrong_worker_count_after_%s' % last))
-    for w, t0 in run.boomed.items():
-        n = sum(1 for (t, who) in run.journal if who == w and t > t0)
-        if n:
-            bad.append(('worker %s invoked the callback %d more times after an invocation had raised' % (w, n),
-                        'M:callbacks_after_failure'))
-    for tid, r in run.s.recs.items():
-        if r.kind == 'worker' and r.exc is not None and not isinstance(r.exc, _Boom):
-            bad.append(('worker %s died with %r although its callback did not raise' % (tid, r.exc),
-                        'M:worker_died:%s' % type(r.exc).__name__))
     return bad
 
 
